@@ -14,6 +14,12 @@ PROPS = {
         "shards": {"quick": 12, "thorough": 16}, "timeout": {"quick": 600, "thorough": 14000},
         "floors": {"quick": {"requests": 3000, "responses_decoded": 2500}, "thorough": {"requests": 100000}},
     },
+    "C03": {
+        "test": "TestVerif_C03", "level": "exploration",
+        "rule": "random histories (create / update / remove of PDR, FAR, QER over 1-4 sessions and 1-2 associations, SDF filters from the grammar, CHOOSE / allocated identifiers, interleaved rejected-for-addressing requests) on the real agent + harness BESS server; after every accepted request the server's tables are compared with the reference image: FAR/QER tables exactly, PDR table as a classifier on boundary-value packets; plus crash points (incarnation killed after response i or at the j-th datapath command, new incarnation against the same populated server); distinct = distinct <normalised model image, table sizes> reached + crash points by <mode, entries left behind>",
+        "shards": {"quick": 12, "thorough": 16}, "timeout": {"quick": 700, "thorough": 14000},
+        "floors": {"quick": {"table_images_compared": 1500, "classification_samples": 100000, "crash_points": 20}, "thorough": {"table_images_compared": 50000, "crash_points": 1000}},
+    },
     "C10": {
         "test": "TestVerif_C10", "level": "exploration",
         "rule": "scenario = {0..n associations (some >100)} x {0-3 sessions} x trigger per association {release, silence->read timeout(+heartbeat failure), unanswered heartbeats, live} x requests in flight x datapath reply delay x PFCPIface.Stop() at a drawn offset (+-3.5 ms around the coinciding triggers), fresh agent per scenario, plus a 'refresh' family (association ends without Stop, same address:port associates afresh, bystander association checked); distinct = distinct interleaving signatures (datapath, heartbeat on/off, delay, stop offset in ms, multiset of per-association <trigger, order relative to Stop, release answered?, sessions>)",
